@@ -177,3 +177,46 @@ Fixpoint build (ts : list tok) (cur : list item) (stack : list (list item)) : op
 
 (* [log] in the order the events happened *)
 Definition shape (log : list event) : option (list item) := build (toks log) [] [].
+
+(* ---------------------------------------------------------------- vocabulary of the laws of ds (Comp/DesugarFacts.v) *)
+Section Vocabulary.
+Variable pol : undefined_policy.
+
+(* two readings with omit agree: nothing produced, the same rows (by type) left *)
+Definition same_skip (a b : res (list raw * list raw)) : Prop :=
+  match a, b with
+  | ROk (o, rem), ROk (o', rem') => o = [] /\ o' = [] /\ map rw_kind rem = map rw_kind rem'
+  | RErr e, RErr e' => e = e'
+  | _, _ => False
+  end.
+
+
+(* the row [r], read in context [c], is the head of a loop that is not skipped, over variable [x] *)
+Definition loop_head (c : ctx) (r : raw) (row : irow) (x : str) (more : list str) : Prop :=
+  instantiate pol c r = ROk row /\ i_kind row = KBeginFor /\ i_inc row = true
+  /\ i_vars row = x :: more /\ x <> [].
+
+(* [bodies] = the desugared loop body, once per element of [elems], the k-th one in the context
+   extended with x := the k-th element (and the index variable := k); [rem] = what follows end_for *)
+Definition bodies_of (f : nat) (rest : list raw) (c : ctx) (x : str) (idx : option str) (elems : list str)
+           (bodies : list (list raw)) (rem : list raw) : Prop :=
+  length bodies = length elems
+  /\ forall k e, nth_error elems k = Some e ->
+       exists b, nth_error bodies k = Some b /\ ds pol f rest (bind_loop c x idx e k) BFor false = ROk (b, rem).
+
+Definition nested_bodies_of (f : nat) (r2 : raw) (rest : list raw) (c : ctx) (x : str) (idx : option str) (elems : list str)
+           (y : str) (more2 : list str)
+           (heads : list irow) (inner : list (list (list raw))) (tails : list (list raw)) (rem : list raw) : Prop :=
+  length heads = length elems /\ length inner = length elems /\ length tails = length elems
+  /\ forall k e, nth_error elems k = Some e ->
+       let ck := bind_loop c x idx e k in
+       exists row2 Bk tail rem2,
+         nth_error heads k = Some row2 /\ nth_error inner k = Some Bk /\ nth_error tails k = Some tail
+         /\ loop_head ck r2 row2 y more2 /\ i_iter row2 <> []
+         /\ bodies_of f rest ck y (idx_of more2) (i_iter row2) Bk rem2
+         /\ ds pol f rem2 ck BFor false = ROk (tail, rem).
+
+Definition nested_block (hbt : irow * (list (list raw) * list raw)) : list raw :=
+  lit_row KBeginBlock (i_id (fst hbt)) (i_text (fst hbt)) :: concat (fst (snd hbt)) ++ end_row :: snd (snd hbt).
+
+End Vocabulary.
